@@ -2,6 +2,7 @@ package props
 
 import (
 	"bytes"
+	"context"
 	"fmt"
 	"io"
 	"os"
@@ -51,6 +52,8 @@ type c13Machine struct {
 	seq     int
 	ops     int // From-Root operations executed
 	addsAfterOp bool
+	exts    []string
+	massive bool // From-Root output and walk steps run with WithMassive
 }
 
 type c13History struct {
@@ -89,6 +92,15 @@ func histString(steps []c13Step) string {
 }
 
 var colorMu sync.Mutex // color.Output is a process-wide variable of a third-party package
+
+// the extension list every dry-run / mkdir step of a machine passes: ONE slice, reused by all calls, with a repeated
+// entry; the library must neither depend on nor modify caller-owned option data between calls
+func (m *c13Machine) extList() []string {
+	if m.exts == nil {
+		m.exts = []string{"b", "x.y", "b"}
+	}
+	return m.exts
+}
 
 // exec performs one step on the real trees and on the model and compares; "" means the invariant holds.
 func (m *c13Machine) exec(s c13Step) string {
@@ -149,6 +161,10 @@ func (m *c13Machine) run(s c13Step) string {
 		p.Kids = append(p.Kids, mn)
 		t.nodes = append(t.nodes, got)
 		t.mnodes = append(t.mnodes, mn)
+		return ""
+	case "mdverify":
+		// an option-less VerifyFromMarkdown in between (it only reads the current directory); whatever it returns
+		gtree.VerifyFromMarkdown(strings.NewReader(s.Doc))
 		return ""
 	case "markdown":
 		var buf bytes.Buffer
@@ -222,7 +238,7 @@ func (m *c13Machine) run(s c13Step) string {
 			color.Output = io.Discard
 			switch s.Kind {
 			case "drymkdir":
-				err = gtree.MkdirFromRoot(root, gtree.WithDryRun())
+				err = gtree.MkdirFromRoot(root, gtree.WithDryRun(), gtree.WithFileExtensions(m.extList()))
 			case "mkdir":
 				m.seq++
 				target := filepath.Join(m.dir, fmt.Sprintf("t%d", m.seq))
@@ -244,7 +260,10 @@ func (m *c13Machine) run(s c13Step) string {
 	switch s.Kind {
 	case "output":
 		var buf bytes.Buffer
-		if err := gtree.OutputFromRoot(&buf, root, opt.Options(nil, "")...); err != nil {
+		if m.massive {
+			opt.Massive = true
+		}
+		if err := gtree.OutputFromRoot(&buf, root, opt.Options(context.Background(), "")...); err != nil {
 			return "OutputFromRoot: " + err.Error()
 		}
 		want, _ := model.Render(mf, b)
@@ -298,13 +317,16 @@ func (m *c13Machine) run(s c13Step) string {
 		var buf bytes.Buffer
 		old := color.Output
 		color.Output = &buf
-		err := gtree.MkdirFromRoot(root, gtree.WithDryRun(), gtree.WithFileExtensions([]string{"b"}))
+		err := gtree.MkdirFromRoot(root, gtree.WithDryRun(), gtree.WithFileExtensions(m.extList()))
 		color.Output = old
 		colorMu.Unlock()
 		if err != nil {
 			return "MkdirFromRoot(dry run): " + err.Error()
 		}
-		want := strings.Join(model.DryRunReport(mf, model.DefaultBranch, []string{"b"}), "")
+		if fmt.Sprint(m.exts) != "[b x.y b]" {
+			return fmt.Sprintf("the caller's extension slice was modified by the call: %q", m.exts)
+		}
+		want := strings.Join(model.DryRunReport(mf, model.DefaultBranch, []string{"b", "x.y"}), "")
 		m.lastOut = buf.String()
 		if buf.String() != want {
 			return fmt.Sprintf("dry-run report of tree %s: %s", mroot, firstDiff(buf.String(), want))
@@ -324,13 +346,13 @@ func (m *c13Machine) run(s c13Step) string {
 			m.lastOut = "verified"
 			return ""
 		}
-		if err := gtree.MkdirFromRoot(root, gtree.WithTargetDir(target)); err != nil {
+		if err := gtree.MkdirFromRoot(root, gtree.WithTargetDir(target), gtree.WithFileExtensions(m.extList())); err != nil {
 			return "MkdirFromRoot: " + err.Error()
 		}
 		snap := ops.Snap(target)
 		want := map[string]string{}
-		for _, e := range materialize(mf, nil, nil) {
-			want[e.Path] = "d"
+		for _, e := range materialize(mf, []string{"b", "x.y"}, nil) {
+			want[e.Path] = e.Kind
 		}
 		got := map[string]string{}
 		for p, d := range snap {
@@ -409,6 +431,10 @@ func TestC13Machine(t *testing.T) {
 				want, _ := model.Render(model.Merge(f), model.DefaultBranch)
 				// a different notation every time (unit, tabs, heading roots ...): calls must not inherit anything
 				step(c13Step{Kind: "markdown", Doc: model.Spell(f, genSpelling(f.HeadingOK()).Draw(rt, "mdspelling")), Want: want})
+			},
+			"mdverify": func(rt *rapid.T) {
+				f := genForest(forestParams{maxNodes: 4, maxDepth: 3, names: sampled(poolTiny)}).Draw(rt, "vforest")
+				step(c13Step{Kind: "mdverify", Doc: model.Spell(f, model.Plain2)})
 			},
 			"repeat": func(rt *rapid.T) {
 				if m.last == nil {
@@ -515,6 +541,7 @@ type c13Concurrent struct {
 	Docs      []string    `json:"docs"`      // independent From-Markdown calls, one goroutine each
 	DryRun    []bool      `json:"dryRun"`    // per document: OutputFromMarkdown with WithDryRun + extension "b" instead of plain text
 	Procs     int         `json:"procs"`
+	Massive   bool        `json:"massive,omitempty"` // every output / walk of the histories uses WithMassive
 }
 
 func c13ConcurrentCheck(c c13Concurrent) string {
@@ -549,7 +576,7 @@ func c13ConcurrentCheck(c c13Concurrent) string {
 					msgs[g] = fmt.Sprintf("goroutine %d panicked: %v", g, p)
 				}
 			}()
-			m := &c13Machine{dir: filepath.Join(ops.DefaultEnv.Scratch, fmt.Sprintf("c13c.%d", g))}
+			m := &c13Machine{dir: filepath.Join(ops.DefaultEnv.Scratch, fmt.Sprintf("c13c.%d", g)), massive: c.Massive}
 			defer os.RemoveAll(m.dir)
 			<-start
 			for i, s := range h {
@@ -615,7 +642,8 @@ func TestC13Concurrent(t *testing.T) {
 	col.Rule = "rapid: 2..8 goroutines, each building and using its own trees with its own random history (Gosched between steps), plus 0..4 goroutines repeating independent OutputFromMarkdown calls; every result is compared with the model / with the result of the same call run alone; GOMAXPROCS drawn from {1,2,4,16}"
 	rapid.Check(t, func(rt *rapid.T) {
 		var c c13Concurrent
-		g := rapid.IntRange(2, 8).Draw(rt, "goroutines")
+		g := rapid.SampledFrom([]int{2, 3, 4, 6, 8, 16, 24}).Draw(rt, "goroutines")
+		c.Massive = rapid.IntRange(0, 2).Draw(rt, "massive") == 0
 		for i := 0; i < g; i++ {
 			c.Histories = append(c.Histories, genC13History(rt, fmt.Sprintf("g%d", i), rapid.IntRange(3, 25).Draw(rt, "len")))
 		}
